@@ -234,9 +234,21 @@ func gen(t *rapid.T) Case {
 		}
 		for i := 0; i < nl; i++ {
 			n := rapid.IntRange(0, 12).Draw(t, "n")
+			if rapid.IntRange(0, 49).Draw(t, "longline") == 0 {
+				n = rapid.IntRange(250, 1100).Draw(t, "nlong")
+			}
 			l := make([]vkit.P2, n)
 			for j := range l {
 				l[j] = vkit.MkP(cg.Draw(t, "x"), cg.Draw(t, "y"))
+				// degenerate members of "all line strings": a vertex repeated (zero-length segment), a vertex revisited later
+				if j > 0 {
+					switch rapid.IntRange(0, 11).Draw(t, "degenerate") {
+					case 0:
+						l[j] = l[j-1]
+					case 1:
+						l[j] = l[rapid.IntRange(0, j-1).Draw(t, "revisit")]
+					}
+				}
 			}
 			c.Lines = append(c.Lines, l)
 		}
@@ -361,15 +373,15 @@ func runPoly(c Case) (v vkit.Verdict) {
 		P = mp[0]
 	}
 	// Area: every spelling
-	if got := P.Area(); math.Abs(got-wantArea) > areaTol {
+	if got := P.Area(); vkit.Off(got-wantArea, areaTol) {
 		return v.Fail("%T.Area() = %.17g, exact %.17g (tol %.3g)", P, got, wantArea, areaTol)
 	}
 	if len(mp) == 1 {
-		if got := mp[0].Area(); math.Abs(got-wantArea) > areaTol {
+		if got := mp[0].Area(); vkit.Off(got-wantArea, areaTol) {
 			return v.Fail("Polygon.Area() = %.17g, exact %.17g", got, wantArea)
 		}
 	}
-	if got := mp.Area(); math.Abs(got-wantArea) > areaTol {
+	if got := mp.Area(); vkit.Off(got-wantArea, areaTol) {
 		return v.Fail("MultiPolygon.Area() = %.17g, exact %.17g", got, wantArea)
 	}
 	inBox := func(p geom.Point, b *geom.Bounds) bool {
@@ -379,7 +391,7 @@ func runPoly(c Case) (v vkit.Verdict) {
 		v.Class("all_closed")
 		// MultiPolygon.Centroid: any per-ring winding
 		got := mp.Centroid()
-		if math.Abs(got.X-wantCx) > cTol || math.Abs(got.Y-wantCy) > cTol {
+		if vkit.Off(got.X-wantCx, cTol) || vkit.Off(got.Y-wantCy, cTol) {
 			return v.Fail("MultiPolygon.Centroid() = %v, exact (%.17g, %.17g) (tol %.3g)", got, wantCx, wantCy, cTol)
 		}
 		if !inBox(got, mp.Bounds()) {
@@ -388,19 +400,19 @@ func runPoly(c Case) (v vkit.Verdict) {
 		if opposite {
 			v.Class("closed_and_opposite")
 			// op.Area promises alternating orientation
-			if got := op.Area(P); math.Abs(got-wantArea) > areaTol {
+			if got := op.Area(P); vkit.Off(got-wantArea, areaTol) {
 				return v.Fail("op.Area(%T) = %.17g, exact %.17g", P, got, wantArea)
 			}
 			if len(mp) == 1 {
 				got := mp[0].Centroid()
-				if math.Abs(got.X-wantCx) > cTol || math.Abs(got.Y-wantCy) > cTol {
+				if vkit.Off(got.X-wantCx, cTol) || vkit.Off(got.Y-wantCy, cTol) {
 					return v.Fail("Polygon.Centroid() = %v, exact (%.17g, %.17g) (tol %.3g)", got, wantCx, wantCy, cTol)
 				}
 				if !inBox(got, mp[0].Bounds()) {
 					return v.Fail("Polygon.Centroid() = %v outside the bounding box", got)
 				}
 				got2, err := op.Centroid(mp[0])
-				if err != nil || math.Abs(got2.X-wantCx) > cTol || math.Abs(got2.Y-wantCy) > cTol {
+				if err != nil || vkit.Off(got2.X-wantCx, cTol) || vkit.Off(got2.Y-wantCy, cTol) {
 					return v.Fail("op.Centroid() = %v, %v, exact (%.17g, %.17g)", got2, err, wantCx, wantCy)
 				}
 			}
@@ -436,15 +448,25 @@ func runLine(c Case) (v vkit.Verdict) {
 			scale = math.Max(scale, math.Max(math.Abs(float64(p[0])), math.Abs(float64(p[1]))))
 		}
 	}
+	for _, l := range c.Lines {
+		for i := 0; i+1 < len(l); i++ {
+			if l[i] == l[i+1] {
+				v.Class("line_with_zero_length_segment")
+			}
+		}
+		if len(l) > 200 {
+			v.Class("long_line")
+		}
+	}
 	v.NonTrivial = interior || len(c.Lines) > 1
 	var L geom.Linear = ml
 	if !c.AsMulti && len(ml) == 1 {
 		L = ml[0]
 	}
-	if got := L.Length(); math.Abs(got-wantLen) > 1e-12*wantLen {
+	if got := L.Length(); vkit.Off(got-wantLen, 1e-12*wantLen) {
 		return v.Fail("%T.Length() = %.17g, sum of segment lengths %.17g", L, got, wantLen)
 	}
-	if got := op.Length(L); math.Abs(got-wantLen) > 1e-12*wantLen {
+	if got := op.Length(L); vkit.Off(got-wantLen, 1e-12*wantLen) {
 		return v.Fail("op.Length(%T) = %.17g, sum of segment lengths %.17g", L, got, wantLen)
 	}
 	got := L.Distance(c.Pt.Pt())
@@ -455,7 +477,7 @@ func runLine(c Case) (v vkit.Verdict) {
 		}
 		return v
 	}
-	if math.Abs(got-wantD) > 1e-9*scale {
+	if vkit.Off(got-wantD, 1e-9*scale) {
 		return v.Fail("%T.Distance(%v) = %.17g, reference %.17g", L, c.Pt, got, wantD)
 	}
 	return v
@@ -476,10 +498,10 @@ func runBuffer(c Case) (v vkit.Verdict) {
 		th := 2 * math.Pi * float64(i) / float64(c.Segments)
 		wx, wy := p.X+c.Radius*math.Cos(th), p.Y+c.Radius*math.Sin(th)
 		tol := 1e-12*c.Radius + 1e-13*(math.Abs(p.X)+math.Abs(p.Y))
-		if math.Abs(q.X-wx) > tol || math.Abs(q.Y-wy) > tol {
+		if vkit.Off(q.X-wx, tol) || vkit.Off(q.Y-wy, tol) {
 			return v.Fail("Buffer vertex %d = %v, want (%v,%v)", i, q, wx, wy)
 		}
-		if r := math.Hypot(q.X-p.X, q.Y-p.Y); math.Abs(r-c.Radius) > tol {
+		if r := math.Hypot(q.X-p.X, q.Y-p.Y); vkit.Off(r-c.Radius, tol) {
 			return v.Fail("Buffer vertex %d at distance %v from the centre, want %v", i, r, c.Radius)
 		}
 	}
@@ -492,16 +514,16 @@ func runBox(c Case) (v vkit.Verdict) {
 	b := &geom.Bounds{Min: o.Pt(), Max: geom.Point{X: float64(o[0]) + float64(wh[0]), Y: float64(o[1]) + float64(wh[1])}}
 	v.NonTrivial = wh[0] > 0 && wh[1] > 0
 	wantA := (b.Max.X - b.Min.X) * (b.Max.Y - b.Min.Y)
-	if got := b.Area(); math.Abs(got-wantA) > 1e-12*wantA {
+	if got := b.Area(); vkit.Off(got-wantA, 1e-12*wantA) {
 		return v.Fail("Bounds.Area = %v want %v", got, wantA)
 	}
 	cc := b.Centroid()
-	if math.Abs(cc.X-(b.Min.X+b.Max.X)/2) > 1e-12*(1+math.Abs(cc.X)) || math.Abs(cc.Y-(b.Min.Y+b.Max.Y)/2) > 1e-12*(1+math.Abs(cc.Y)) {
+	if vkit.Off(cc.X-(b.Min.X+b.Max.X)/2, 1e-12*(1+math.Abs(cc.X))) || vkit.Off(cc.Y-(b.Min.Y+b.Max.Y)/2, 1e-12*(1+math.Abs(cc.Y))) {
 		return v.Fail("Bounds.Centroid = %v for %+v", cc, *b)
 	}
 	// the box as a polygon has the same measures
 	pg := b.Polygons()[0]
-	if got := pg.Area(); math.Abs(got-wantA) > 1e-9*(wantA+1) {
+	if got := pg.Area(); vkit.Off(got-wantA, 1e-9*(wantA+1)) {
 		return v.Fail("Bounds.Polygons()[0].Area = %v want %v", got, wantA)
 	}
 	return v
@@ -527,7 +549,7 @@ func TestProp(t *testing.T) {
 			"unclosed; 'closed_opposite' = all rings closed, holes wound opposite to the shell, optionally all reversed; 'closed_any' = closed, arbitrary per-ring " +
 			"winding), optionally mapped by a float similarity (scale from 1e-100 to 1e100, translation for moderate scales); exact area and centroid from math/big integer moments. Area/MultiPolygon.Area for " +
 			"every spelling; MultiPolygon.Centroid for closed rings under every per-ring winding; Polygon.Centroid, op.Centroid and op.Area for closed rings with " +
-			"opposite holes; centroid inside the bounding box. Line strings / multi-line strings (0-12 vertices, lattice or float) for Length (compensated sum) and " +
+			"opposite holes; centroid inside the bounding box. Line strings / multi-line strings (0-12 vertices, 1 in 50 with 250-1100; lattice or float; 1 vertex in 12 repeats its predecessor - a zero-length segment - and 1 in 12 revisits an earlier vertex) for Length (compensated sum) and " +
 			"Distance (independent point-segment formula); Point.Buffer vertices; Bounds.Area/Centroid. Every polygon case is counted non-trivial (each is one orbit " +
 			"element of a shape with holes/members/orientation choice), line cases when the nearest feature is a segment interior or >=2 members, buffers with radius>0. " +
 			"Distinct by case hash.",
